@@ -228,6 +228,69 @@ Definition string_apply (o : sl_op bytes) (v : option bytes) : option bytes * sl
   | SLoad _ => (v, SVal _ (match v with Some s => s | None => [] end))
   end.
 
+Definition string_writes (o : sl_op bytes) : option (option bytes) :=
+  match o with SStore _ x => Some (Some x) | SLoad _ => None end.
+(* String: the final content is the last stored string (or still nil): stores never merge or tear *)
+Theorem string_final_is_last_write : forall s v,
+  seq_cell _ _ _ string_apply v s = last_write string_writes s v.
+Proof. induction s as [|[t o] r IH]; intros v; simpl; [reflexivity|]. rewrite IH. destruct o; reflexivity. Qed.
+(* every Get returns "" (nothing stored yet), the initial content, or a string some EARLIER Set stored *)
+Theorem string_load_sees_a_written_value : forall s v t x,
+  In (SVal _ x) (seq_outs _ _ _ string_apply v s t) ->
+  x = (match v with Some b => b | None => [] end) \/ exists t' y, In (t', SStore _ y) s /\ x = y.
+Proof.
+  induction s as [|[t' o] r IH]; intros v t x H; simpl in H; [contradiction|].
+  apply in_app_or in H. destruct H as [H|H].
+  - destruct (Nat.eqb t' t); [|contradiction]. destruct o; simpl in H; destruct H as [H|[]]; try discriminate.
+    inversion H. left. reflexivity.
+  - apply IH in H. destruct o; simpl in H.
+    + destruct H as [->|[t'' [y [Hin ->]]]].
+      * right. exists t', v0. split; [left; reflexivity|reflexivity].
+      * right. exists t'', y. split; [right; exact Hin|reflexivity].
+    + destruct H as [->|[t'' [y [Hin ->]]]]; [left; reflexivity|].
+      right. exists t'', y. split; [right; exact Hin|reflexivity].
+Qed.
+
+(* NO LOST UPDATE for all the types of atomic/*.go at once: whatever the interleaving of the atomic steps of any
+   number of threads, the final value and every returned result are those of the sequential execution of the
+   same calls in the order of the steps (which contains every thread's calls in program order) *)
+Theorem all_atomics_no_lost_update :
+  (forall c s c', aruns _ _ _ counter_apply c s c' ->
+     cell _ _ _ c' = seq_cell _ _ _ counter_apply (cell _ _ _ c) s
+     /\ (forall t, outs _ _ _ c' t = outs _ _ _ c t ++ seq_outs _ _ _ counter_apply (cell _ _ _ c) s t)
+     /\ (forall t, progs _ _ _ c t = proj _ s t ++ progs _ _ _ c' t))
+  /\ (forall c s c', aruns _ _ _ flag_apply c s c' ->
+     cell _ _ _ c' = seq_cell _ _ _ flag_apply (cell _ _ _ c) s
+     /\ (forall t, outs _ _ _ c' t = outs _ _ _ c t ++ seq_outs _ _ _ flag_apply (cell _ _ _ c) s t)
+     /\ (forall t, progs _ _ _ c t = proj _ s t ++ progs _ _ _ c' t))
+  /\ (forall c s c', aruns _ _ _ int64_apply c s c' ->
+     cell _ _ _ c' = seq_cell _ _ _ int64_apply (cell _ _ _ c) s
+     /\ (forall t, outs _ _ _ c' t = outs _ _ _ c t ++ seq_outs _ _ _ int64_apply (cell _ _ _ c) s t)
+     /\ (forall t, progs _ _ _ c t = proj _ s t ++ progs _ _ _ c' t))
+  /\ (forall c s c', aruns _ _ _ uint32_apply c s c' ->
+     cell _ _ _ c' = seq_cell _ _ _ uint32_apply (cell _ _ _ c) s
+     /\ (forall t, outs _ _ _ c' t = outs _ _ _ c t ++ seq_outs _ _ _ uint32_apply (cell _ _ _ c) s t)
+     /\ (forall t, progs _ _ _ c t = proj _ s t ++ progs _ _ _ c' t))
+  /\ (forall c s c', aruns _ _ _ uint64_apply c s c' ->
+     cell _ _ _ c' = seq_cell _ _ _ uint64_apply (cell _ _ _ c) s
+     /\ (forall t, outs _ _ _ c' t = outs _ _ _ c t ++ seq_outs _ _ _ uint64_apply (cell _ _ _ c) s t)
+     /\ (forall t, progs _ _ _ c t = proj _ s t ++ progs _ _ _ c' t))
+  /\ (forall c s c', aruns _ _ _ string_apply c s c' ->
+     cell _ _ _ c' = seq_cell _ _ _ string_apply (cell _ _ _ c) s
+     /\ (forall t, outs _ _ _ c' t = outs _ _ _ c t ++ seq_outs _ _ _ string_apply (cell _ _ _ c) s t)
+     /\ (forall t, progs _ _ _ c t = proj _ s t ++ progs _ _ _ c' t)).
+Proof. repeat split; intros; eapply atomics_no_lost_update; eauto. Qed.
+
+(* a lost update IS expressible: a non-atomic increment (load; add; store as separate steps) of two threads ends
+   one short — the model distinguishes the atomic from the torn implementation *)
+Inductive torn_op := TLoad | TStore (v : Z).
+Definition torn_apply (o : torn_op) (v : Z) : Z * option Z :=
+  match o with TLoad => (v, Some v) | TStore x => (x, None) end.
+Example torn_increment_loses_an_update :
+  seq_cell _ _ _ torn_apply 5 [(0%nat, TLoad); (1%nat, TLoad); (0%nat, TStore 6); (1%nat, TStore 6)] = 6
+  /\ seq_cell _ _ _ counter_apply 5 [(0%nat, CIncrement); (1%nat, CIncrement)] = 7.
+Proof. split; reflexivity. Qed.
+
 (* non-vacuity: two threads, 1 + 2 increments and a decrement, one interleaving *)
 Example counter_three_threads :
   exists c', aruns _ _ _ counter_apply
